@@ -154,6 +154,11 @@ func genC14(t *rapid.T) *C14Case {
 			c.File.Tops = append([]*Top{{K: "const", Const: &Const{Name: "ITEM_CONST", Val: []string{val}}}}, c.File.Tops...)
 		}
 	}
+	// a constant spelled like a poryswitch case key: case keys are not substitution sites
+	if rapid.IntRange(0, 4).Draw(t, "keyconst") == 0 {
+		key := rapid.SampledFrom([]string{"A", "B"}).Draw(t, "keyconstname")
+		c.File.Tops = append([]*Top{{K: "const", Const: &Const{Name: key, Val: []string{"ITEM_KEYCONST"}}}}, c.File.Tops...)
+	}
 	if len(sc.Body.Stmts) > 0 {
 		pos := rapid.IntRange(0, len(c.File.Tops)).Draw(t, "scriptpos")
 		c.File.Tops = append(c.File.Tops[:pos], append([]*Top{{K: "script", Script: sc}}, c.File.Tops[pos:]...)...)
